@@ -570,6 +570,9 @@ func (c *HTTPClient) Membership(key []byte, version *uint64) (*balloon.Membershi
 	if err != nil {
 		return nil, err
 	}
+	if result == nil {
+		return nil, fmt.Errorf("empty membership answer")
+	}
 
 	proof := protocol.ToBalloonProof(result, c.hasherF)
 	return proof, nil
@@ -599,6 +602,9 @@ func (c *HTTPClient) MembershipDigest(keyDigest hashing.Digest, version *uint64)
 	err = json.Unmarshal(body, &result)
 	if err != nil {
 		return nil, err
+	}
+	if result == nil {
+		return nil, fmt.Errorf("empty membership answer")
 	}
 
 	proof := protocol.ToBalloonProof(result, c.hasherF)
@@ -672,6 +678,9 @@ func (c *HTTPClient) GetSnapshot(version uint64) (*protocol.Snapshot, error) {
 	if err != nil {
 		return nil, err
 	}
+	if ss.Snapshot == nil {
+		return nil, fmt.Errorf("empty snapshot answer")
+	}
 
 	return ss.Snapshot, nil
 }
@@ -690,7 +699,13 @@ func (c *HTTPClient) Incremental(start, end uint64) (*balloon.IncrementalProof, 
 	}
 
 	var response *protocol.IncrementalResponse
-	_ = json.Unmarshal(body, &response)
+	err = json.Unmarshal(body, &response)
+	if err != nil {
+		return nil, err
+	}
+	if response == nil {
+		return nil, fmt.Errorf("empty incremental answer")
+	}
 
 	proof := protocol.ToIncrementalProof(response, c.hasherF)
 	return proof, nil
